@@ -394,7 +394,8 @@ class error_997_visitor(error_visitor.error_visitor):
             seg_base.append('%i:%i' % (err_ele.ele_pos, err_ele.subele_pos))
         else:
             seg_base.append('%i' % (err_ele.ele_pos))
-        if err_ele.ele_ref_num:
+        # a composite has no data element reference number (its map id is C0xx)
+        if err_ele.ele_ref_num and err_ele.ele_ref_num.isdigit():
             seg_base.append(err_ele.ele_ref_num)
         #else:
         #    seg_base.append('')
